@@ -1,6 +1,7 @@
 package main
 
 import (
+	"strings"
 	"crypto/ecdsa"
 	"encoding/json"
 	"errors"
@@ -62,6 +63,10 @@ type SimNode struct {
 	Puppet      bool // no Node object: events are made by the harness
 	ResetEpochs int  // number of fast-forward resets
 	StoreClosed bool
+	// InsertFailedStep is the first step at which this incarnation failed to
+	// insert events it received (-1: never). Used for reset nodes: C13 holds
+	// "for as long as it can insert the events it receives".
+	InsertFailedStep int
 	AnchorAtReset   map[int]int // app epoch -> anchor block index the node reset to
 	AnchorRRAtReset map[int]int
 	Incarnation int
@@ -214,6 +219,13 @@ func (t *simTransport) EagerSync(target string, args *bnet.EagerSyncRequest, res
 		return err
 	}
 	err := t.deliver(target, &req, resp)
+	if tn := nw.byAddr[target]; tn != nil && (err != nil && err != errUnreachable || err == nil && !resp.Success) {
+		if tn.InsertFailedStep < 0 {
+			tn.InsertFailedStep = nw.Step
+		}
+		nw.Res.count("eager_sync_insert_failures", 1)
+		nw.lastEagerFailed = true
+	}
 	if f.DropEagerResp {
 		nw.Res.count("fault_drop_eager_resp", 1)
 		return errUnreachable
@@ -269,6 +281,7 @@ func (t *simTransport) Join(target string, args *bnet.JoinRequest, resp *bnet.Jo
 		return err
 	}
 	pj.host = tn
+	pj.hostInc = tn.Incarnation
 	pj.itx = req.InternalTransaction
 	ch := make(chan bnet.RPCResponse, 1)
 	handlerDone := make(chan struct{})
@@ -321,6 +334,7 @@ type pendingJoin struct {
 	done       chan error
 	immediate  bool
 	reached    bool
+	hostInc    int
 	startStep  int
 }
 
@@ -350,6 +364,7 @@ type Network struct {
 	wantHost *SimNode
 	leaving  map[int]*ItxRecord
 	joinDirect func(target string, args *bnet.JoinRequest, resp *bnet.JoinResponse) error
+	lastEagerFailed bool
 	idleAfterFair bool
 	lostPool map[int]bool // nodes that were restarted (their pending pool is legitimately gone)
 	// KeyLabel distinguishes key families
@@ -509,6 +524,7 @@ func (nw *Network) startNode(sn *SimNode, opts NodeOpts, current, genesis []*pee
 	sn.Store = store
 	sn.trans = tr
 	sn.Incarnation++
+	sn.InsertFailedStep = -1
 	sn.known = map[uint32]int{}
 	sn.has = map[string]bool{}
 	sn.order = nil
@@ -568,7 +584,15 @@ func (nw *Network) Gossip(a *SimNode, b *peers.Peer, f Fault, syncLimit int) err
 	nw.Res.count("step_gossip", 1)
 	if err != nil {
 		nw.Res.count("step_gossip_err", 1)
+		if err.Error() != errUnreachable.Error() && !strings.Contains(err.Error(), "Not in Babbling state") {
+			// the pull could not insert what it received, or the push was refused
+			nw.Res.count("step_gossip_insert_err", 1)
+			if nw.lastEagerFailed == false && a.InsertFailedStep < 0 {
+				a.InsertFailedStep = nw.Step
+			}
+		}
 	}
+	nw.lastEagerFailed = false
 	if nw.CheckSuspendAfterGossip {
 		a.Node.VerifCheckSuspend()
 	}
@@ -773,6 +797,13 @@ func (nw *Network) resolveJoins() {
 		if nw.joinOf[pj.joiner.Idx] != pj || pj.host == nil {
 			continue
 		}
+		if pj.host.Incarnation != pj.hostInc {
+			// the host lost its data and restarted: the pending request is gone
+			// (the joiner's call would time out)
+			delete(nw.joinOf, pj.joiner.Idx)
+			nw.Res.count("join_lost_host_restarted", 1)
+			continue
+		}
 		has := pj.host.Core.HasPromise(pj.itx)
 		if !has {
 			nw.finishJoin(pj)
@@ -812,6 +843,34 @@ func (nw *Network) pollItxs() {
 // ---------------------------------------------------------------------------
 
 func digestNode(n *SimNode) string {
+	parts := digestLines(n)
+	return shortHash(fmt.Sprint(parts)) + fmt.Sprintf("/%d", len(parts))
+}
+
+// digestDiff names the parts of the state that differ between two digests.
+func digestDiff(a, b []string) []string {
+	out := []string{}
+	m := map[string]bool{}
+	for _, l := range a {
+		m[l] = true
+	}
+	for _, l := range b {
+		if !m[l] {
+			out = append(out, "now: "+trunc(l, 160))
+		}
+		delete(m, l)
+	}
+	for l := range m {
+		out = append(out, "was: "+trunc(l, 160))
+	}
+	sort.Strings(out)
+	if len(out) > 12 {
+		out = out[:12]
+	}
+	return out
+}
+
+func digestLines(n *SimNode) []string {
 	c := n.Core
 	h := c.Hg()
 	st := h.Store
@@ -888,7 +947,7 @@ func digestNode(n *SimNode) string {
 	add("pools %d %d %d heads %v", len(c.TransactionPool()), len(c.InternalTransactionPool()), len(c.SelfBlockSignatures()), c.Heads())
 	add("state %s", n.Node.GetState())
 	add("app %s", n.App.digest())
-	return shortHash(fmt.Sprint(parts)) + fmt.Sprintf("/%d", len(parts))
+	return parts
 }
 
 // digestNodeParts is like digestNode but returns the individual lines, so that
